@@ -65,7 +65,7 @@ def _collapse(w):
 def _merge_empty(case, fail):
     if case.get("k") == "resolve":
         ref = _t(case["ref"])
-    elif case.get("k") == "edit" and case.get("op") == "resolve":
+    elif (case.get("k") == "edit" or case.get("ev") == "edit") and case.get("op") == "resolve":
         ref = _t(case["pre"])
     else:
         return False
